@@ -43,6 +43,7 @@ package cluster
 //@   loop 1 invariant[inv] stInv(s)
 
 //@ contract (*State).AddLocalEndpoint
+//@   requires[owner] held(LoadBalancedManager.mu)
 //@   serves C05 C20
 //@   opt dyncall LocalEndpointSubscriber
 //@   ensures[count] localCount(s, endpointID) == old(localCount(s, endpointID)) + 1
@@ -53,6 +54,7 @@ package cluster
 //@   loop 1 invariant[others] forall e string :: e != endpointID ==> localCount(s, e) == old(localCount(s, e))
 
 //@ contract (*State).RemoveLocalEndpoint
+//@   requires[owner] held(LoadBalancedManager.mu)
 //@   serves C05 C20
 //@   opt dyncall LocalEndpointSubscriber
 //@   ensures[count] localCount(s, endpointID) == (old(localCount(s, endpointID)) > 0 ? old(localCount(s, endpointID)) - 1 : 0)
